@@ -179,6 +179,8 @@ structure FormatTables where
   continues : List Nat
   params : List Nat
   stepBack : List Nat
+  /-- characters whose clause takes exactly the next rune as a quoted character parameter -/
+  quotes : List Nat
   defaultRaises : Bool
 
 def xMark : Nat := 120
@@ -192,6 +194,8 @@ inductive ScanOut where
   | finished
   | outOfFuel
   | indexFault
+  /-- a quoted character parameter that is not ASCII: the rune decoding is outside the model -/
+  | unmodelled
 deriving DecidableEq, Repr
 
 /-- readParam: skip bytes until one is marked; `none` is `dirScanMap[b]` out of range -/
@@ -209,7 +213,12 @@ def scanDir (f : FormatTables) : Nat → List Nat → ScanOut
   | fuel + 1, b :: rest =>
     if f.directives.contains b then .directive b rest
     else if f.continues.contains b then
-      if f.params.contains b then
+      if f.quotes.contains b then
+        -- the next rune is the parameter; at the end of the string the clause raises
+        match rest with
+        | [] => .raise
+        | c :: rest' => if c < 128 then scanDir f fuel rest' else .unmodelled
+      else if f.params.contains b then
         match skipParam f (if f.stepBack.contains b then b :: rest else rest) with
         | none => .indexFault
         | some rest' => scanDir f fuel rest'
